@@ -2,7 +2,9 @@
 //!
 //! usage: implrun <driver> [args] < cases > results     (one result line per case line)
 mod codec;
+mod codegen;
 mod layers;
+mod router;
 mod timeout;
 mod util;
 
@@ -16,7 +18,9 @@ fn main() {
     util::install_panic_hook();
     match args[1].as_str() {
         "codec" => codec::run(),
+        "codegen" => codegen::run(),
         "layers" => layers::run(),
+        "router" => router::run(),
         "timeout" => timeout::run(),
         other => {
             eprintln!("unknown driver {other}");
